@@ -226,7 +226,83 @@ def p2pkh_btc(P, compressed):
     return T(b58check(b"\x00" + hash160(ser)))
 
 
+# ------------------------------------------------------------------ C20 references
+
+def p2pkh_btc_pub(pub):
+    """Bitcoin main-net P2PKH address of serialised public key bytes"""
+    return T(b58check(b"\x00" + hash160(_b(pub))))
+
+
+def p2wpkh_btc_pub(pub):
+    """BIP-173 P2WPKH address: hrp bc, witness version 0, program hash160(compressed key)"""
+    d5 = [0] + _convertbits(hash160(_b(pub)), 8, 5, True)
+    pm = _polymod(_hrp_expand("bc") + d5 + [0] * 6) ^ 1
+    ck = [(pm >> 5 * (5 - i)) & 31 for i in range(6)]
+    return T("bc1" + "".join(CHARSET[d] for d in d5 + ck))
+
+
+def bip32_master(seed):
+    import hmac
+    I = hmac.new(b"Bitcoin seed", _b(seed), hashlib.sha512).digest()
+    k = int.from_bytes(I[:32], "big")
+    assert 0 < k < K1.n
+    return [I[:32], K1.ser_c(K1.mul(k, K1.G)), I[32:], 0]
+
+
+def bip32_public_only(o):
+    return [b"", o[1], o[2], o[3]]
+
+
+def bip32_ckd(o, idx):
+    """BIP-32 child of [priv or b'', compressed pub, chain code, depth]; -> [exception code, child]"""
+    import hmac
+    priv, pub, cc, depth = _b(o[0]), _b(o[1]), _b(o[2]), o[3]
+    hard = idx >= 2 ** 31
+    if hard and not priv:
+        return [105, o]                                   # Bip32KeyError
+    data = (b"\0" + priv if hard else pub) + idx.to_bytes(4, "big")
+    I = hmac.new(cc, data, hashlib.sha512).digest()
+    il = int.from_bytes(I[:32], "big")
+    if il >= K1.n:
+        return [105, o]
+    if priv:
+        k = (il + int.from_bytes(priv, "big")) % K1.n
+        if k == 0:
+            return [105, o]
+        return [0, [k.to_bytes(32, "big"), K1.ser_c(K1.mul(k, K1.G)), I[32:], depth + 1]]
+    P = K1.add(K1.mul(il, K1.G), K1.deser(pub))
+    if P is None:
+        return [105, o]
+    return [0, [b"", K1.ser_c(P), I[32:], depth + 1]]
+
+
+def ed25519_is_valid(b):
+    b = _b(b)
+    return int(len(b) == 32 and ED.deser(b, canonical=False) is not None)
+
+
+def b58_decode_btc(s):
+    n = 0
+    for c in s:
+        n = n * 58 + B58.index(c)
+    body = n.to_bytes((n.bit_length() + 7) // 8, "big")
+    return b"\0" * (len(s) - len(s.lstrip("1"))) + body
+
+
+def sol_decode(t):
+    """[exception code, bytes]: Base58, 32 bytes, a valid ed25519 point"""
+    try:
+        b = b58_decode_btc(_txt(t))
+    except ValueError:
+        return [1, b""]
+    if len(b) != 32 or not ed25519_is_valid(b):
+        return [1, b""]
+    return [0, b]
+
+
 ORACLES = {
+    "p2pkh_btc_pub": p2pkh_btc_pub, "p2wpkh_btc_pub": p2wpkh_btc_pub, "bip32_ckd": bip32_ckd,
+    "ed25519_is_valid": ed25519_is_valid, "sol_decode": sol_decode,
     "utf8_encode": utf8_encode, "secp_ser_c": secp_ser_c, "secp_ser_u": secp_ser_u, "secp_deser": secp_deser,
     "p2pkh_btc": p2pkh_btc,
     "c05_priv_ok": priv_ok, "c05_pub_parse": pub_parse, "c05_pub_of_priv": pub_of_priv,
